@@ -113,6 +113,10 @@ SPECS = {
     'pub_full': {'name': 'pub_full', 'setup': 'cs_setup1_scribble', 'threads': [(W, 'cs_r_published_full'), (W, 'cs_w_publish1')], 'covers': []},
     'pub_fallback': {'name': 'pub_fallback', 'setup': 'cs_setup2_scribble', 'threads': [('cs_fill8_t1', 'cs_r_published'), (W, 'cs_w_publish1')], 'covers': []},
     'pub_swap': {'name': 'pub_swap', 'setup': 'cs_setup1_scribble', 'threads': [(W, 'cs_r_published'), (W, 'cs_w_publish_swap')], 'covers': []},
+    'pub3': {'name': 'pub3', 'setup': 'cs_setup1_scribble', 'threads': [(W, 'cs_r_published3'), (W, 'cs_w_publish1'), (W, 'cs_w_publish3')], 'covers': []},
+    'pub3_fb': {'name': 'pub3_fb', 'setup': 'cs_setup2_scribble', 'threads': [('cs_fill8_t1', 'cs_r_published3'), (W, 'cs_w_publish1'), (W, 'cs_w_publish3')], 'covers': []},
+    'nf_pub': {'name': 'nf_pub', 'setup': 'nf_setup_scribble', 'threads': [('nf_warm', 'nf_r_published'), ('nf_warm', 'nf_w_publish1')], 'final': 'nf_final_pub', 'covers': [13]},
+    'nf_pub3': {'name': 'nf_pub3', 'setup': 'nf_setup_scribble', 'threads': [('nf_warm', 'nf_r_published'), ('nf_warm', 'nf_w_publish1'), ('nf_warm', 'nf_w_publish3')], 'final': 'nf_final_pub', 'covers': [13]},
     # --- C08: reader against writers that complete whole writes between its steps
     'wf_fast': {'name': 'wf_fast', 'setup': 'cs_setup_pool', 'threads': [(W, 'cs_r_load_only'), (W, 'cs_w_store_pool12')], 'covers': []},
     'wf_full8': {'name': 'wf_full8', 'setup': 'cs_setup_pool2', 'threads': [('cs_fill8_t1', 'cs_r_load_only'), (W, 'cs_w_store_pool12')], 'covers': []},
@@ -162,7 +166,7 @@ SPECS = {
                     'threads': [('nf_warm', 'nf_r_wrap_a'), ('nf_pre_load_b', 'nf_exit_t2'), ('nf_warm', 'nf_w_store_b3')],
                     'final': 'nf_final', 'covers': [13]},
     'nf_churn_min': {'name': 'nf_churn_min', 'setup': 'nf_setup',
-                     'threads': [(None, 'nf_r1_load_exit'), ('nf_warm', 'nf_w_store_a2'), (None, 'nf_r3_store_load_rec')],
+                     'threads': [('nf_warm', 'nf_r1_load_exit'), ('nf_warm', 'nf_w_store_a2'), (None, 'nf_r3_store_load_rec')],
                      'after': {3: 1}, 'final': 'nf_final_lin', 'covers': [13]},
     # --- two new threads race for the node an exited thread left behind
     'nf_claim2': {'name': 'nf_claim2', 'setup': 'nf_setup',
@@ -242,6 +246,9 @@ def c03(ctx):
     cb_run(ctx, SPECS['nf_churn'], 3, features=TS)
     if ctx.tier != 'quick':
         cb_set(ctx, ['lin1', 'lin1_fb'], 3)
+        # churn with 4 preemptions on a minimal scenario (a writer that is overtaken by a thread exit AND by the start
+        # of the next owner of the node needs that many): about 2 million schedules
+        cb_run(ctx, SPECS['nf_churn_min'], 4, features=TS, timeout_s=3000)
 
 
 @prop('C04')
@@ -475,12 +482,27 @@ def c07(ctx):
     import conc
     ctx.bounds.update({'threads': 2, 'memory_model': 'SC executions judged by C11 happens-before (release/acquire/SeqCst, acquire fences, release sequences through one RMW); stale relaxed reads are NOT explored',
                        'paths': ['fast slot (guard)', 'load_full', 'fallback with confirmed debt (8 slots held)', 'previous value returned by swap', 'destruction of the replaced value']})
-    ctx.outside += ['executions that are not sequentially consistent (store buffering / stale relaxed reads)', 'happens-before chains through a third thread (helper hand-over by a different writer)', 'address reuse']
+    ctx.outside += ['executions that are not sequentially consistent (store buffering / stale relaxed reads)', 'schedules with more preemptions than the stated K in the three-thread scenarios', 'address reuse']
     names = ['pub_fast'] if ctx.tier == 'quick' else ['pub_fast', 'pub_full', 'pub_swap', 'pub_fallback']
     for n in names:
         s = ctx.session('rel')
         r = conc.run_conc(s, SPECS[n], loop_bound=3, hb=True, timeout_s=900)
         ctx.add(tag(r, flavor='rel'))
+    # the same judgement on every context-bounded schedule: C11 happens-before recomputed by vector clocks over the
+    # concrete event sequence of each explored path (release sequences through any number of read-modify-writes,
+    # fences, chains through any number of threads); deeper scenarios: the helping path with a writer that helps, two
+    # publishing writers (the helper is not the writer whose value is handed over)
+    ctx.bounds['context_bounded_hb'] = ('every explored schedule (at most K preemptions) is one SC execution; happens-before is recomputed on it with per-thread '
+                                        'vector clocks (sw: acquire read / acquire fence after a read of a release-or-stronger write or of its release sequence; release fences); '
+                                        'a conflicting pair on the pointee payload (init write, reads through handles, destructor write) not ordered by it is a race, confirmed under Miri')
+    K = 2 if ctx.tier == 'quick' else 3
+    for n in ['pub_fast', 'pub_full', 'pub_swap', 'pub_fallback']:
+        cb_run(ctx, dict(SPECS[n], hb=True), K)
+    cb_run(ctx, dict(SPECS['nf_pub'], hb=True), 3, features=TS)
+    cb_run(ctx, dict(SPECS['pub3_fb'], hb=True), 1 if ctx.tier == 'quick' else 2)
+    cb_run(ctx, dict(SPECS['nf_pub3'], hb=True), 1 if ctx.tier == 'quick' else 2, features=TS)
+    if ctx.tier != 'quick':
+        cb_run(ctx, dict(SPECS['pub3'], hb=True), 2)
 
 
 
